@@ -36,12 +36,23 @@ impl Evidence {
     pub fn write(&self) {
         let dir = std::env::var("VERIF_EVIDENCE_DIR").unwrap_or_else(|_| "/verif/evidence".into());
         let _ = std::fs::create_dir_all(&dir);
+        let mut coverage = self.coverage.clone();
+        let ex = crate::par::KSCHED_EXECS.load(std::sync::atomic::Ordering::Relaxed);
+        if ex > 0 {
+            let dv = crate::par::KSCHED_DIVERGED.load(std::sync::atomic::Ordering::Relaxed);
+            coverage.insert("scheduled_executions".into(), ex.into());
+            coverage.insert("scheduled_executions_whose_replayed_prefix_diverged".into(), dv.into());
+            if dv > 0 {
+                coverage.insert("exhaustive".into(), false.into());
+                eprintln!("warning: {dv} of {ex} scheduled executions diverged from their replayed prefix (nondeterminism outside the scheduler); the exploration is reported as not exhaustive");
+            }
+        }
         let v = json!({
             "property_id": self.property_id,
             "tier": self.tier,
             "seed": self.seed,
             "level": self.level,
-            "coverage": Value::Object(self.coverage.clone()),
+            "coverage": Value::Object(coverage),
             "assumptions": self.assumptions,
             "wall_s": self.started.elapsed().as_secs_f64(),
             "violations": self.violations,
